@@ -248,7 +248,7 @@ class C04:
     pid = "C04"
     rule = ("each scenario is a list of 0-3 metric families (all five types, 0-4 labels with values from an adversarial pool: backslash, "
             "quote, LF, CR, TAB, multi-byte, lone backslash before n, empty; every f64 class; counts up to 2^64-1; timestamps absent/0/+/-; "
-            "explicit +inf buckets; empty help; Err paths) encoded through encode / encode_utf8 (empty and pre-filled buffer) and "
+            "explicit +inf buckets; empty help; 2 % help texts / 1.5 % label values of 1-1.4 KiB; Err paths) encoded through encode / encode_utf8 (empty and pre-filled buffer) and "
             "encode_to_string; non-trivial = at least one sample line was written; distinct = distinct scenario text")
     assumptions = [
         "f64::to_string / i64::to_string (Rust std) are oracles: their contract (token reads back bit-exactly under an exact decimal->binary64 "
